@@ -70,7 +70,7 @@ func init() {
 				var cs []fw.Case
 				np := 200
 				if !ctx.Quick {
-					np = 1500
+					np = 6000
 				}
 				for i := 0; i < np; i++ {
 					f := []string{"native", "plain"}[i%2]
@@ -83,7 +83,7 @@ func init() {
 				for n := 0; n <= maxLen; n++ {
 					reps := 1
 					if !ctx.Quick {
-						reps = 6
+						reps = 20
 					}
 					for k := 0; k < reps; k++ {
 						cs = append(cs, fw.Case{ID: fmt.Sprintf("hash/%d/%d", n, k), Kind: "hash", P: map[string]any{"n": n, "k": k}})
@@ -99,14 +99,14 @@ func init() {
 				}
 				nf := 300
 				if !ctx.Quick {
-					nf = 1200
+					nf = 5000
 				}
 				for i := 0; i < nf; i++ {
 					cs = append(cs, fw.Case{ID: fmt.Sprintf("func/%d", i), Kind: "func", P: map[string]any{"i": i}})
 				}
 				ns := 24
 				if !ctx.Quick {
-					ns = 80
+					ns = 160
 				}
 				for i := 0; i < ns; i++ {
 					cs = append(cs, fw.Case{ID: fmt.Sprintf("solver/%d", i), Kind: "solver", P: map[string]any{"i": i}})
@@ -456,14 +456,14 @@ func c10Prop() *fw.Prop {
 			var cs []fw.Case
 			np := 40
 			if !ctx.Quick {
-				np = 1500
+				np = 6000
 			}
 			for i := 0; i < np; i++ {
 				cs = append(cs, fw.Case{ID: fmt.Sprintf("perm/%d", i), Kind: "perm", P: map[string]any{"i": i}})
 			}
 			reps := 2
 			if !ctx.Quick {
-				reps = 20
+				reps = 80
 			}
 			for n := 0; n <= 30; n++ {
 				for k := 0; k < reps; k++ {
@@ -472,7 +472,7 @@ func c10Prop() *fw.Prop {
 			}
 			nt := 30
 			if !ctx.Quick {
-				nt = 600
+				nt = 3000
 			}
 			for i := 0; i < nt; i++ {
 				cs = append(cs, fw.Case{ID: fmt.Sprintf("twotoone/%d", i), Kind: "twotoone", P: map[string]any{"i": i}})
@@ -484,7 +484,7 @@ func c10Prop() *fw.Prop {
 			}
 			nsq := 4
 			if !ctx.Quick {
-				nsq = 60
+				nsq = 200
 			}
 			for i := 0; i < nsq; i++ {
 				cs = append(cs, fw.Case{ID: fmt.Sprintf("seq/%d", i), Kind: "seq", P: map[string]any{"i": i}})
